@@ -183,17 +183,93 @@ func runC16(c *Ctx) {
 		R.OK("C16.R1", key, cons, pos, "error extracted and tested against nil before anything else happens")
 		// R2
 		start := ifi.Block().Succs[failSucc]
-		seen := map[*ssa.BasicBlock]bool{}
-		stack := []*ssa.BasicBlock{start}
+		// A later test of the same error (the join behind an inlined helper: `if err != nil { return err }`) is
+		// followed only along its err != nil edge, provided the tested φ carries this write's error on every edge
+		// over which the walk can reach it.
+		solid := map[ssa.Value]bool{}
+		for v := range errv {
+			if _, isPhi := v.(*ssa.Phi); !isPhi {
+				solid[v] = true
+			}
+		}
+		failEdgeOf := func(b *ssa.BasicBlock) int {
+			i, ok := b.Instrs[len(b.Instrs)-1].(*ssa.If)
+			if !ok {
+				return -1
+			}
+			bo, ok := i.Cond.(*ssa.BinOp)
+			if !ok || (bo.Op != token.NEQ && bo.Op != token.EQL) {
+				return -1
+			}
+			cv, other := bo.X, bo.Y
+			if c, ok := cv.(*ssa.Const); ok && c.IsNil() {
+				cv, other = other, cv
+			}
+			if c, ok := other.(*ssa.Const); !ok || !c.IsNil() || !solid[cv] {
+				return -1
+			}
+			if bo.Op == token.EQL {
+				return 1
+			}
+			return 0
+		}
+		var seen map[*ssa.BasicBlock]bool
 		bad := ""
 		rets := 0
-		for len(stack) > 0 && bad == "" {
-			b := stack[len(stack)-1]
-			stack = stack[:len(stack)-1]
-			if seen[b] {
-				continue
+		for round := 0; round < 5; round++ {
+			seen = map[*ssa.BasicBlock]bool{}
+			stack := []*ssa.BasicBlock{start}
+			for len(stack) > 0 {
+				b := stack[len(stack)-1]
+				stack = stack[:len(stack)-1]
+				if seen[b] {
+					continue
+				}
+				seen[b] = true
+				if b == s.Header {
+					continue
+				}
+				if k := failEdgeOf(b); k >= 0 {
+					stack = append(stack, b.Succs[k])
+					continue
+				}
+				stack = append(stack, b.Succs...)
 			}
-			seen[b] = true
+			// φ carriers all of whose reachable incoming edges carry the error
+			changed := false
+			for v := range errv {
+				ph, isPhi := v.(*ssa.Phi)
+				if !isPhi || solid[v] || !seen[ph.Block()] {
+					continue
+				}
+				ok := true
+				for i, pr := range ph.Block().Preds {
+					reach := seen[pr] && pr != s.Header
+					if ph.Block() == start && pr == ifi.Block() {
+						reach = true
+					}
+					if k := -1; reach && seen[pr] {
+						if k = failEdgeOf(pr); k >= 0 && pr.Succs[k] != ph.Block() {
+							reach = false
+						}
+					}
+					if reach && !solid[ph.Edges[i]] {
+						ok = false
+					}
+				}
+				if ok {
+					solid[v] = true
+					changed = true
+				}
+			}
+			if !changed {
+				break
+			}
+		}
+		for b := range seen {
+			if bad != "" {
+				break
+			}
 			if b == s.Header {
 				bad = "the err != nil edge continues into the token loop (processing goes on after a failed write)"
 				break
@@ -209,7 +285,6 @@ func runC16(c *Ctx) {
 					}
 				}
 			}
-			stack = append(stack, b.Succs...)
 		}
 		if bad == "" && rets == 0 {
 			bad = "no return reachable from the err != nil edge"
